@@ -1,9 +1,14 @@
 """Scenarios from the specification (tlc -simulate on MC_Scenario) -> sessions on real graphs -> trace validation by TLC."""
+import contextlib
 import glob
+import io
 import json
 import os
+import random
 import re
 import shutil
+
+from graphslam.graph import Graph
 
 from . import graphs, tlc, tlaval
 from .record import Session
@@ -70,6 +75,30 @@ def generate(run, names, seed, num, depth, max_iters=(1, 2, 3), tols=('0', '1e-4
         res.cleanup()
 
 
+class _Noise:
+    """Activity on unrelated graphs between the recorded calls of a session."""
+
+    def __init__(self, seed):
+        self.rnd = random.Random(seed)
+        self.g = None
+
+    def step(self):
+        r = self.rnd.random()
+        if self.g is None or r < 0.3:
+            name = self.rnd.choice(['r2', 'se2', 'se3', 'se2c', 'se2fix', 'mixed', 'r3fixlm'])
+            es, vs, _ = graphs.TEMPLATES[name](self.rnd.randrange(1000))
+            self.g = Graph(es, vs)
+        try:
+            with contextlib.redirect_stdout(io.StringIO()):
+                if r < 0.6:
+                    self.g.optimize(max_iter=self.rnd.randint(1, 3), tol=self.rnd.choice([0.0, 1e-4, 0.5]), fix_first_pose=self.rnd.random() < 0.7, verbose=self.rnd.random() < 0.5)
+                else:
+                    self.g.calc_chi2()
+                    self.g._vertices[-1].fixed = not self.g._vertices[-1].fixed
+        except Exception:  # noqa  (whatever happens to the unrelated graph is not the subject)
+            self.g = None
+
+
 def play(behaviours, seed, sink, twin_every=2, split_fn=None):
     """Step real graphs along the behaviours; events appended to sink; returns {sid: Session}."""
     sessions = {}
@@ -81,7 +110,12 @@ def play(behaviours, seed, sink, twin_every=2, split_fn=None):
         if not s.construct(es, vs):
             continue
         nopt = 0
+        # Interleaving dimension: between the recorded calls, an UNRELATED graph (other objects, other template) is built, queried and optimised.
+        # None of it is recorded: a recorded graph's behaviour must not depend on what happens to other graphs (no class-level / module-level state).
+        noise = _Noise(seed + sid) if sid % 2 == 0 else None
         for a in args:
+            if noise:
+                noise.step()
             if a['op'] == 'Query':
                 s.query(a['q'], a['target'])
             elif a['op'] == 'SetFixed':
